@@ -86,6 +86,10 @@ impl Rng {
         }
         v
     }
+    pub fn bytes_range(&mut self, lo: usize, hi: usize) -> Vec<u8> {
+        let n = self.urange(lo, hi);
+        self.bytes(n)
+    }
     pub fn shuffle<T>(&mut self, xs: &mut [T]) {
         for i in (1..xs.len()).rev() {
             let j = self.usize_below(i + 1);
